@@ -305,7 +305,7 @@ def gen_cases(ctx, count, n_range, k_range, weakly_modes, want=("ok",), q_per=6,
                 queries.append((("!", b), a))
             else:
                 queries.append(core.gen_cond(rng, nq, depth, consts))
-        if nq == n and kind != "deep_pairs" and rng.random() < 0.07 and n < 7:
+        if outside_sig > 0 and nq == n and kind != "deep_pairs" and rng.random() < 0.07 and n < 7:
             # also for the structured cases: one atom outside the base's signature (the two last queries are then about it)
             nq = n + 1
         if conds and rng.random() < 0.12:
